@@ -110,7 +110,7 @@ def explore(cfg, env0, funcs=None, on_node=None, max_states=20000, start=None, u
                     except (A.NotClosed, TypeError, AttributeError, IndexError, KeyError, ValueError):
                         env2.pop(p, None)
             for s, l in nd.succ:
-                if l == 'exc':
+                if l == 'exc' and not (nd.kind == 'raise' and s.kind == 'handler'):
                     continue
                 succs.append((s, env2))
         for s, e in succs:
